@@ -6,6 +6,7 @@ import (
 	"bytes"
 	"encoding/base64"
 	"fmt"
+	"math"
 	"net"
 	"strings"
 	rtime "time"
@@ -247,6 +248,23 @@ func init() {
 				}
 				rep.Outcomes[fmt.Sprintf("accepted=%v", got)]++
 			}
+		}
+		// far-away and extreme timestamps: the client's clock is set to each of them, a fresh packet is
+		// captured, and the server (on the real clock) must treat it as outside the window
+		for _, ts := range []int64{0, 1, -1, stamp - 86400*365, stamp + 86400*365, stamp - 86400*365*291, stamp - 86400*365*293, stamp - 86400*365*1000, stamp + 86400*365*293,
+			math.MaxInt64, math.MinInt64, math.MaxInt64 - 1, math.MinInt64 + 1, 1 << 62, -(1 << 62), math.MaxInt32, math.MinInt32, int64(math.MaxUint32)} {
+			cs2 := cs
+			cs2.AbsClock = ts
+			cs2.UseAbsClock = true
+			pkt, r2 := captureFirst(cs2, uid)
+			sta := &State{StaticPv: r2.sta.StaticPv, UsedRandom: map[[32]byte]int64{}, WorldState: common.WorldState{Now: rtime.Now}}
+			_, _, err := AuthFirstPacket(pkt, tr, sta)
+			rep.Executions++
+			rep.Transitions++
+			if err == nil {
+				rep.Violations = append(rep.Violations, vx.Violation{Clause: "strict-timestamp-window", Sig: vx.Sig(c.Job, "strict-timestamp-window"), Msg: fmt.Sprintf("a packet stamped %d (server time %d) was accepted", ts, rtime.Now().Unix())})
+			}
+			rep.Outcomes[fmt.Sprintf("extreme-accepted=%v", err == nil)]++
 		}
 		if n := len(rep.Violations); n > 0 {
 			// a capture that straddled a second boundary shifts everything by one: retry logic is in the job table (seed)
